@@ -1,0 +1,27 @@
+//go:build verif
+
+package store
+
+import (
+	"github.com/andres-erbsen/clock"
+	"github.com/uber-go/tally"
+)
+
+// Test-only seams for the C31 runtime monitor (/verif/harness/c31). Inert
+// without the `verif` build tag. Wrappers only.
+
+// VerifC31NewCAStore is NewCAStore with an injected clock (LRU access times,
+// cleanup TTI/TTL decisions).
+func VerifC31NewCAStore(config CAStoreConfig, stats tally.Scope, clk clock.Clock) (*CAStore, error) {
+	return newCAStore(config, stats, clk)
+}
+
+// VerifC31CleanupPass runs, synchronously, exactly what the two background
+// cleanup jobs of the store run on one tick (upload job, then cache job).
+func (s *CAStore) VerifC31CleanupPass() error {
+	if _, err := s.cleanup.cleanup(s.uploadStore.newFileOp(), s.config.UploadCleanup.applyDefaults(), cachedInAgentPolicy); err != nil {
+		return err
+	}
+	_, err := s.cleanup.cleanup(s.cacheStore.newFileOp(), s.config.CacheCleanup.applyDefaults(), cachedInAgentPolicy)
+	return err
+}
